@@ -72,3 +72,25 @@ Theorem C10_own_msgpack_accepted :
     encodable utf8_valid v -> is_collection v = true ->
     msgpack_matches utf8_valid (enc_val v ++ tail) = true.
 Proof. exact own_output_matches. Qed.
+
+(* For JSON the premise of C10_own_json is discharged.  The JSON detection trial
+   (theories/JsonTrialModel.v: serde_json's ignore_value as IgnoredAny drives
+   it, diffed against the real trial by the JI correspondence) accepts whatever
+   the real parse accepts (theories/JsonTrialProofs.v), and the real parse reads
+   back what the writer model wrote, floats included; so the stream xt writes
+   for one or more values - the first a map or an array, each below the
+   recursion limit, strings valid UTF-8, floats finite - is detected as JSON
+   from a slice, whatever the YAML trial would have said. *)
+From XtModel Require Import Utf8 JsonModel JsonWriteModel JsonWriteProofs JsonFloatModel JsonTrialModel JsonTrialProofs.
+
+Theorem C10_json_trial_accepts_what_parses :
+  forall (inp : bytes) (evs : list ev) (rest : bytes),
+    json_value inp = (evs, JOk rest) -> json_trial_reader inp = true.
+Proof. exact json_value_accepted_by_trial. Qed.
+
+Theorem C10_own_json_output_detected :
+  forall (sched : nat -> nat) (cutoff : nat) (toml_parses utf8 : bytes -> bool) (ty : trial) (v : jval) (vs : list jval),
+    is_collection v = true -> Forall (writable f_finite) (v :: vs) ->
+    snd (detect sched cutoff toml_parses (msgpack_slice_trial utf8) json_slice_trial ty
+           (start (HSlice (jwrite_docs json_f64 (v :: vs))))) = Ok (Some Json).
+Proof. exact own_json_output_detected. Qed.
